@@ -25,6 +25,9 @@ pub struct TFile {
 pub enum Node {
   File(Vec<u8>),
   Dir,
+  /// a directory in place of the file which holds the expected bytes one level down, in files named after the torrent and
+  /// after the entry (a verifier must not go looking for the content there)
+  DirWith(Vec<u8>),
   Missing,
   /// the first component is a regular file, so the path cannot be resolved (ENOTDIR)
   ParentIsFile,
@@ -50,6 +53,7 @@ fn node_json(n: &Node) -> Value {
   match n {
     Node::File(b) => json!({"file": hex(b)}),
     Node::Dir => json!("dir"),
+    Node::DirWith(b) => json!({"dir_holding_the_bytes_one_level_down": hex(b)}),
     Node::Missing => json!("missing"),
     Node::ParentIsFile => json!("parent-is-file"),
   }
@@ -74,6 +78,8 @@ impl Case {
           "missing" => Node::Missing,
           _ => Node::ParentIsFile,
         }
+      } else if let Some(h) = n.get("dir_holding_the_bytes_one_level_down") {
+        Node::DirWith(unhex(h.as_str()?)?)
       } else {
         Node::File(unhex(n.get("file")?.as_str()?)?)
       };
@@ -242,6 +248,10 @@ pub fn observe(ctx: &Ctx, c: &Case) -> Obs {
       match tree.get("") {
         Some(Node::File(b)) => sb.write(root_rel, b),
         Some(Node::Dir) => sb.mkdir(root_rel),
+        Some(Node::DirWith(b)) => {
+          sb.write(&format!("{root_rel}/{}", c.name), b);
+          sb.write(&format!("{root_rel}/data"), b);
+        }
         Some(Node::ParentIsFile) => {
           // root's parent is a regular file
           let parent = std::path::Path::new(root_rel).parent().unwrap().to_string_lossy().into_owned();
@@ -262,6 +272,10 @@ pub fn observe(ctx: &Ctx, c: &Case) -> Obs {
           Node::ParentIsFile => {}
           Node::File(b) => sb.write(&format!("{root_rel}/{k}"), b),
           Node::Dir => sb.mkdir(&format!("{root_rel}/{k}")),
+          Node::DirWith(b) => {
+            sb.write(&format!("{root_rel}/{k}/{}", c.name), b);
+            sb.write(&format!("{root_rel}/{k}/{}", k.rsplit('/').next().unwrap_or("x")), b);
+          }
           Node::Missing => {}
         }
       }
@@ -318,7 +332,7 @@ fn model_line(c: &Case) -> String {
     let path = if f.path.is_empty() { ".".to_string() } else { f.path.iter().map(|x| hex(x.as_bytes())).collect::<Vec<_>>().join(",") };
     let node = match c.tree.get(&c.key(f)) {
       Some(Node::File(b)) => format!("F{}", hex(b)),
-      Some(Node::Dir) => "D".into(),
+      Some(Node::Dir) | Some(Node::DirWith(_)) => "D".into(),
       Some(Node::ParentIsFile) => "E".into(),
       _ => "M".into(),
     };
@@ -580,6 +594,10 @@ pub fn gen_c03(rng: &mut Rng) -> Case {
         c.tree.insert(k, Node::Dir);
         label += "+dir-for-file";
       }
+      7 | 8 => {
+        c.tree.insert(k, Node::DirWith(orig));
+        label += "+dir-holding-the-file";
+      }
       5 if !c.single && k.contains('/') => {
         let first = format!("{}/", k.split('/').next().unwrap());
         for kk in keys.iter().filter(|kk| kk.starts_with(&first)) {
@@ -618,7 +636,8 @@ pub fn gen_c13(rng: &mut Rng) -> Case {
   let mut c = honest(rng, p, false, md5);
   c.root_mode = rng.pick(&["content", "base", "sibling"]).to_string();
   // secret bytes outside the root, and a listed path that reaches them
-  let slen = rng.range(1, 40) as usize;
+  // (sometimes nothing at all: an empty file outside the root is still outside the root)
+  let slen = if rng.chance(1, 6) { 0 } else { rng.range(1, 40) as usize };
   let secret = rng.bytes(slen);
   let root_rel: Vec<&str> = match c.root_mode.as_str() {
     "content" => vec!["w", "elsewhere", "data"],
@@ -627,7 +646,17 @@ pub fn gen_c13(rng: &mut Rng) -> Case {
   };
   let depth_up = rng.range(1, root_rel.len() as u64) as usize;
   let mut target: Vec<String> = root_rel[..root_rel.len() - depth_up].iter().map(|s| s.to_string()).collect();
-  target.push("outside".into());
+  // the directory the escape lands in: often a sibling whose name merely begins with the name of the directory it sits
+  // next to (`data-old` beside `data`): comparing rendered paths as strings would take it for a part of the root
+  let beside = root_rel[root_rel.len() - depth_up];
+  let outside: String = match rng.below(5) {
+    0 => format!("{beside}-old"),
+    1 => format!("{beside}2"),
+    2 => format!("{beside}.bak"),
+    _ => "outside".into(),
+  };
+  let outside = outside.as_str();
+  target.push(outside.into());
   target.push("secret".into());
   let kind = rng.below(16);
   let ups = vec!["..".to_string(); depth_up];
@@ -638,22 +667,22 @@ pub fn gen_c13(rng: &mut Rng) -> Case {
     format!("{pad}{}", unit.repeat(rng.range(2, 6) as usize))
   };
   let path: Vec<String> = match kind {
-    0 => ups.iter().cloned().chain(["outside".to_string(), "secret".to_string()]).collect(),
-    1 => ["sub".to_string()].into_iter().chain(ups.iter().cloned()).chain(["..".to_string(), "outside".to_string(), "secret".to_string()]).collect(),
-    2 => vec![format!("{}/outside/secret", ups.join("/"))],
-    3 => vec![format!("sub/../{}/outside/secret", ups.join("/"))],
-    4 => vec![".".to_string()].into_iter().chain(ups.iter().cloned()).chain(["outside".to_string(), "secret".to_string()]).collect(),
+    0 => ups.iter().cloned().chain([outside.to_string(), "secret".to_string()]).collect(),
+    1 => ["sub".to_string()].into_iter().chain(ups.iter().cloned()).chain(["..".to_string(), outside.to_string(), "secret".to_string()]).collect(),
+    2 => vec![format!("{}/{outside}/secret", ups.join("/"))],
+    3 => vec![format!("sub/../{}/{outside}/secret", ups.join("/"))],
+    4 => vec![".".to_string()].into_iter().chain(ups.iter().cloned()).chain([outside.to_string(), "secret".to_string()]).collect(),
     // separators of other platforms and encodings: on this platform these are ordinary file-name characters, so the
     // listed file simply does not exist inside the root - unless something re-interprets them on the way
-    6 => vec![format!("{}\\outside", ups.join("\\")), "secret".to_string()],
-    7 => vec![format!("{}\\outside\\secret", ups.join("\\"))],
-    8 => vec![format!("sub\\..\\{}\\outside\\secret", ups.join("\\"))],
-    9 => vec![ups.iter().map(|_| *rng.pick(&["..%2f", "..%2F", "%2e%2e/", "..\u{2215}", "..\u{ff0f}", "..;"])).collect::<Vec<_>>().join("") + "outside", "secret".to_string()],
-    10 => ups.iter().cloned().chain([long_name(rng), "outside".to_string(), "secret".to_string()]).collect(),
-    11 => vec![long_name(rng)].into_iter().chain(ups.iter().cloned()).chain(["..".to_string(), "outside".to_string(), "secret".to_string()]).collect(),
+    6 => vec![format!("{}\\{outside}", ups.join("\\")), "secret".to_string()],
+    7 => vec![format!("{}\\{outside}\\secret", ups.join("\\"))],
+    8 => vec![format!("sub\\..\\{}\\{outside}\\secret", ups.join("\\"))],
+    9 => vec![ups.iter().map(|_| *rng.pick(&["..%2f", "..%2F", "%2e%2e/", "..\u{2215}", "..\u{ff0f}", "..;"])).collect::<Vec<_>>().join("") + outside, "secret".to_string()],
+    10 => ups.iter().cloned().chain([long_name(rng), outside.to_string(), "secret".to_string()]).collect(),
+    11 => vec![long_name(rng)].into_iter().chain(ups.iter().cloned()).chain(["..".to_string(), outside.to_string(), "secret".to_string()]).collect(),
     // an empty component ahead of the escape (a screen that trips over the empty one must still refuse, not crash)
-    13 => vec![String::new()].into_iter().chain(ups.iter().cloned()).chain(["outside".to_string(), "secret".to_string()]).collect(),
-    14 | 15 => ups.iter().cloned().chain(["outside".to_string(), "secret".to_string()]).collect(),
+    13 => vec![String::new()].into_iter().chain(ups.iter().cloned()).chain([outside.to_string(), "secret".to_string()]).collect(),
+    14 | 15 => ups.iter().cloned().chain([outside.to_string(), "secret".to_string()]).collect(),
     12 => {
       // absolute component after an ordinary one (pushing an absolute path replaces everything before it)
       vec!["sub".to_string(), "<ABS>".to_string()]
@@ -669,11 +698,15 @@ pub fn gen_c13(rng: &mut Rng) -> Case {
   let pos = rng.below(c.files.len() as u64 + 1) as usize;
   c.files.insert(pos, TFile { path, len: secret.len() as u64, md5: if rng.chance(1, 3) { Some(md5::compute(&secret).0.to_vec()) } else { None } });
   c.outside.push((target.join("/"), secret.clone()));
-  // pieces over listed order with the secret spliced in
+  // pieces over listed order with the secret spliced in - or left out, as if the escaping entry contributed nothing
+  // (a verifier that checks the entry's existence and length outside the root but hashes only what is inside)
+  let splice = rng.chance(2, 3);
   let mut concat = Vec::new();
   for (i, f) in c.files.iter().enumerate() {
     if i == pos {
-      concat.extend_from_slice(&secret);
+      if splice {
+        concat.extend_from_slice(&secret);
+      }
     } else if let Some(Node::File(b)) = c.tree.get(&f.path.join("/")) {
       concat.extend_from_slice(b);
     }
@@ -688,7 +721,7 @@ pub fn gen_c13(rng: &mut Rng) -> Case {
     let odd = if kind == 14 { vec!["docs".to_string(), String::new()] } else { vec![String::new()] };
     c.files.insert(0, TFile { path: odd, len: 0, md5: None });
   }
-  c.label = format!("escape-kind-{kind}-at-{pos}");
+  c.label = format!("escape-kind-{kind}-at-{pos}{}{}", if splice { "" } else { "-pieces-without-it" }, if outside == "outside" { "" } else { "-into-namesake-sibling" });
   c
 }
 
